@@ -442,6 +442,25 @@ def run(ctx):
         va = ctx.apply(I, f, r.ret, args)
         vb = ctx.apply(I2, f, ref, args)
         ctx.formula('FORMULA', f'{f.name}: closed form', f, va, vb, node=f.node, construct=f'return of {f.name}')
+    # sinc^2 in its other modes (the default configuration above is width_mode='crossing', trunc=True): the first zero crossing
+    # of an FWHM-specified profile is (width/2)/0.4429..., and that -- not width/2 -- is where truncation cuts
+    for cfg_, lam_ in (({'width_mode': lift('fwhm'), 'trunc': T.TRUE},
+                        'lambda f, f_center: np.where(np.abs(f - f_center) < (width / 2) / 0.442946470689452, '
+                        'np.sinc((f - f_center) / ((width / 2) / 0.442946470689452)), 0)**2'),
+                       ({'width_mode': lift('fwhm'), 'trunc': T.FALSE},
+                        'lambda f, f_center: np.sinc((f - f_center) / ((width / 2) / 0.442946470689452))**2'),
+                       ({'width_mode': lift('crossing'), 'trunc': T.FALSE},
+                        'lambda f, f_center: np.sinc((f - f_center) / (width / 2))**2')):
+        f = ctx.func('funcs.f_profiles.sinc2_f_profile')
+        I = ctx.interp()
+        r = I.run(f, args=dict(cfg_))
+        ctx._account(I)
+        I2 = ctx.interp()
+        args = [sym('f'), sym('f_center')]
+        va = ctx.apply(I, f, r.ret, args)
+        vb = ctx.apply(I2, f, ctx.spec(f, lam_, I=I2), args)
+        tag_ = ', '.join(f'{k}={pretty(v)}' for k, v in cfg_.items())
+        ctx.formula('FORMULA', f'sinc2_f_profile[{tag_}]: closed form', f, va, vb, node=f.node, construct=f'return of sinc2_f_profile [{tag_}]')
     # families with their own state / loops: compared through a reference transcription of the whole factory,
     # applying the returned closure to a symbolic argument in both
     for short, ref, argn, cfgs in (
